@@ -481,6 +481,7 @@ func analyzeEpochs(fi *funcInfo) {
 			break
 		}
 	}
+	simplifyEpochJoinsX1(fi, in, out)
 	fi.outEpoch = out
 	fi.inEpoch = in
 }
@@ -1004,6 +1005,9 @@ func (fi *funcInfo) contractFacts(a string, v ssa.Value, seen map[string]bool) [
 	} else if com.IsInvoke() {
 		name = com.Method.FullName()
 	}
+	if i := strings.IndexByte(name, '['); i > 0 && strings.HasPrefix(name, "slices.") {
+		name = name[:i] // instance of a generic function of package slices
+	}
 	switch name {
 	case "io.ReadFull":
 		p := fi.lenOf(com.Args[1])
@@ -1019,7 +1023,8 @@ func (fi *funcInfo) contractFacts(a string, v ssa.Value, seen map[string]bool) [
 		out = append(out, atom(a), p.sub(atom(a)))
 		out = append(out, fi.rangeFactsSeen(seen, p)...)
 	case "strings.IndexByte", "strings.IndexAny", "strings.IndexRune", "strings.IndexFunc", "strings.LastIndexByte", "strings.LastIndexAny", "strings.LastIndexFunc",
-		"bytes.IndexByte", "bytes.IndexAny", "bytes.IndexRune", "bytes.IndexFunc", "bytes.LastIndexByte", "bytes.LastIndexAny", "bytes.LastIndexFunc":
+		"bytes.IndexByte", "bytes.IndexAny", "bytes.IndexRune", "bytes.IndexFunc", "bytes.LastIndexByte", "bytes.LastIndexAny", "bytes.LastIndexFunc",
+		"slices.Index", "slices.IndexFunc":
 		// -1, or the index of a byte of the argument
 		p := fi.lenOf(com.Args[0])
 		out = append(out, atom(a).addK(1), p.sub(atom(a)).addK(-1))
@@ -1158,6 +1163,9 @@ func (fi *funcInfo) factsAt(b *ssa.BasicBlock, at ssa.Instruction) []Lin {
 func (fi *funcInfo) condFacts(c ssa.Value, truth bool) []Lin {
 	if gf := fi.guardFacts(c, truth); len(gf) > 0 {
 		return gf
+	}
+	if pf := fi.predFactsX1(c, truth); len(pf) > 0 {
+		return pf // the condition is the result of a small module predicate (ext_x1.go)
 	}
 	switch x := c.(type) {
 	case *ssa.UnOp:
